@@ -9,8 +9,11 @@ tie    : this file - for every generated program of the core language, the extra
          tree the REBUILT LIBRARY serializes for the same stylesheet and source (re-parsed).  A key the machine
          asks for that the reference never evaluated (a table miss) means its state left the reference's: also
          a difference.  The extracted sem_main runs on the same tables and must agree with the machine (theorem);
-oracle : props/C01.py's (vlib/xsltref.py vs the library); here reference != library only classifies a
-         machine/library difference as an oracle matter (counted, left to C01's oracle stream)."""
+oracle : props/C01.py's (vlib/xsltref.py vs the library); here reference != library classifies a machine/library
+         difference (the machine runs on the reference's tables, so a behavioural change of the library looks like
+         that); with ORACLE_MATTER_IS_BROKEN (default) it is reported as a broken correspondence with its replay:
+         the generator stays out of every known-finding class of C01/C14 (no namespaces), so on the unchanged
+         tree the count is 0."""
 import os
 import time
 
